@@ -90,8 +90,107 @@ func c16r9(p *model.Prog, r *report.Result) {
 		}
 		r.Check(reset, "C16.R9", "stage|"+f.Name(), p.Pos(dispose.Pos()), "emptied on Dispose", fmt.Sprintf("the buffering stage %s (filled in %s) is not emptied by anything Dispose() calls: what it holds when the input leaves is dropped - for a single-track stream shorter than the analysis window that is the whole stream, the TS recording and HLS stay empty", f.Name(), where))
 	}
+	// order: a step of Dispose that can still put data into a stage (it drains an earlier stage
+	// into it) must be followed by a step that empties that stage
+	isReset := func(st *ssa.Store) bool {
+		if model.IsNilConst(st.Val) {
+			return true
+		}
+		if sl, ok := st.Val.(*ssa.Slice); ok && sl.High != nil {
+			if k, isK := model.ConstInt(sl.High); isK && k == 0 {
+				return true
+			}
+		}
+		return false
+	}
+	closure := func(root *ssa.Function) map[*ssa.Function]bool {
+		// static callees and the callbacks installed in the remuxer (dynamic calls resolved by the call graph)
+		seen := map[*ssa.Function]bool{root: true}
+		work := []*ssa.Function{root}
+		for d := 0; d < 6 && len(work) > 0; d++ {
+			var next []*ssa.Function
+			for _, fn := range work {
+				for _, g := range model.WithAnons(fn) {
+					for _, ci := range model.AllCalls(g) {
+						var ces []*ssa.Function
+						if ce := ci.Common().StaticCallee(); ce != nil {
+							ces = []*ssa.Function{ce}
+						} else {
+							ces = p.Callees(ci)
+						}
+						for _, ce := range ces {
+							if model.IsLal(ce) && !seen[ce] && owners[recvName(topFn(ce))] {
+								seen[ce] = true
+								next = append(next, ce)
+							}
+						}
+					}
+				}
+			}
+			work = next
+		}
+		return seen
+	}
+	var steps []ssa.CallInstruction
+	for _, ci := range model.AllCalls(dispose) {
+		if ce := ci.Common().StaticCallee(); ce != nil && model.IsLal(ce) && ci.Block() == dispose.Blocks[0] {
+			steps = append(steps, ci)
+		}
+	}
+	for f := range stages {
+		if _, isScratch := scratch[f.Name()]; isScratch {
+			continue
+		}
+		lastFill, lastReset := -1, -1
+		for i, ci := range steps {
+			for fn := range closure(ci.Common().StaticCallee()) {
+				for _, st := range model.FieldStores(fn, f) {
+					if isReset(st) {
+						if i > lastReset {
+							lastReset = i
+						}
+					} else if c, isC := st.Val.(*ssa.Call); isC {
+						if b, isB := c.Call.Value.(*ssa.Builtin); isB && b.Name() == "append" && i > lastFill {
+							lastFill = i
+						}
+					}
+				}
+			}
+		}
+		if lastFill < 0 {
+			continue
+		}
+		pos := p.Pos(dispose.Pos())
+		if lastFill < len(steps) {
+			pos = p.InstrPos(steps[lastFill])
+		}
+		r.Check(lastReset > lastFill || (lastReset == lastFill && lastFill >= 0 && stageSelfDrains(steps[lastFill], f)), "C16.R9", "order|"+f.Name(), pos, "emptied after the last step that can fill it", fmt.Sprintf("Dispose() empties the stage %s before a later step that can still put data into it (the earlier stage is drained into it afterwards): what arrives there is never handed on - the tail of a short single-track stream is lost from the TS outputs", f.Name()))
+	}
 	r.Count("remuxer_buffer_stages", len(stages))
 	if len(stages) < 2 {
 		r.Bad("C16.R9", "floor", "", fmt.Sprintf("only %d buffering stages found in the TS remuxer", len(stages)))
 	}
+}
+
+// stageSelfDrains: the step itself both fills and empties the stage (it is that stage's own
+// drain routine); accepted only for the stage whose drain routine the step is.
+func stageSelfDrains(step ssa.CallInstruction, f *types.Var) bool {
+	ce := step.Common().StaticCallee()
+	if ce == nil {
+		return false
+	}
+	resets := false
+	model.EachInstr(ce, func(in ssa.Instruction) {
+		if st, ok := in.(*ssa.Store); ok && model.FieldOf(st.Addr) == f {
+			if model.IsNilConst(st.Val) {
+				resets = true
+			}
+			if sl, isSl := st.Val.(*ssa.Slice); isSl && sl.High != nil {
+				if k, isK := model.ConstInt(sl.High); isK && k == 0 {
+					resets = true
+				}
+			}
+		}
+	})
+	return resets
 }
